@@ -147,6 +147,8 @@ def make_constraint(cspec):
 
     def cons(X):
         c = violation(cspec, X)
+        if ret == "barrier":
+            return np.where(c > 0, np.inf, 0.0)  # barrier style: 0 where feasible, +inf where violated
         if ret.startswith("bool"):
             c = c > 0
         # "..._col": an (N, 1) column, the shape the validation message of BADS asks for ("returns a column vector")
